@@ -219,8 +219,16 @@ def _one(res, rng, d, df, exp, meta, fmt, colchunk, rowchunk, workers, tag):
         sizes["CHUNK_SIZE_COLUMNS_FOR_DROP_COLUMNS"] = colchunk
     if rowchunk:
         sizes["CHUNK_SIZE_ROWS_FOR_DROP_COLUMNS"] = rowchunk
-    with core.chunk_sizes(**sizes):
+    import contextlib
+    from vf.instruments import scheduler
+
+    sched = scheduler.perturb(int(rng.integers(1 << 30)), max_sleep=0.002) if workers > 1 else contextlib.nullcontext()
+    with core.chunk_sizes(**sizes), sched as trace:
         c = core.Call(_read, p, workers)
+    if trace is not None:
+        res.count("multiworker_reads")
+        res.count("task_kinds_finished_out_of_order", trace.out_of_order())
+        res.count("threads_seen", trace.threads())
     extra = dict(fmt=fmt, col_chunk=colchunk or 19, row_chunk=rowchunk, workers=workers)
     if not c.ok:
         res.violate("crash", c.sig, msg=c.info["msg"], meta=meta, **extra)
